@@ -133,6 +133,14 @@ def check(run):
         cases.append((L, s, eM, helpers.random_weights(rng, s, eM)))
     run.attempt("corr:corr_rotH", kern.corr_rotH, run, cases, rotors if not quick else rotors[:14] + rotors[-3:], preps, poison=float("nan"))
     gap(run, quick)
+    from .. import layouts
+    import quaternionic as _q
+    import spherical
+    wl_ = spherical.Wigner(7)
+    R_ = _q.array(helpers.random_rotor(run.rng))
+    layouts.sweep_modes(run, "rotate", [("rotate[horner=True]", lambda f: wl_.rotate(f, R_, horner=True)), ("rotate[horner=False]", lambda f: wl_.rotate(f, R_, horner=False)),
+                                        ("Modes.rotate", lambda f: f.rotate(R_))],
+                        [-2, 0, 1] if quick else range(-3, 4), exact=lambda nm: "True" in nm)
     run.assumptions += ["f'(Q)=f(RQ), composition, inverse and block norms need the representation property of D, which is not proved: oracle sweep only",
                         "matrix route uses BLAS: compared numerically"]
 
